@@ -67,6 +67,7 @@ def check(repo, tier="quick"):
     res.rule("C08.a", "every not-in-spec statement of the description program is of a known form that either reads nothing from the stream or changes nothing on streams the validator accepts")
     res.rule("C08.b", "padding / auxiliary data: the number of bytes read equals the trip count of the commented-out pseudocode loop, max(0, next_parse_offset - 13)")
     res.rule("C08.c", "enum robustness substitutions fire only where the validator's same-named function rejects the value (assert_in_enum on the same enumeration, same index != 0 condition); the ld_slice length clamp fires only where the validator raises InvalidSliceYLength")
+    res.rule("C08.e", "the description program and the reader keep no state between streams and pass no same-named coordinates to the wrong parameters")
     res.rule("C08.d", "bounded blocks: BitstreamReader.read_bit consumes exactly the first n bits of an n-bit block and then yields the literal 1 without consuming, as pinned read_bitb does; bounded_block_end hands back max(0, remaining), which the serdes reads, as pinned flush_inputb does")
 
     m = repo.mod(VC2)
@@ -90,6 +91,11 @@ def check(repo, tier="quick"):
                 classify(repo, res, m, fn, fname, s, key, where, dm_funcs)
     res.info["not_in_spec_statements"] = n_free
     rule_d(repo, res)
+    from .. import lints, globals_state
+
+    lints.rule(repo, res, "C08.e", ["bitstream.vc2", "bitstream.serdes", "bitstream.io"])
+    globals_state.rule(repo, res, "C08.e", ["bitstream.vc2", "bitstream.serdes", "bitstream.io", "pseudocode.slice_sizes"], what="what the deserialiser reads for one stream (a later stream would be read with an earlier one's cached geometry)")
+    res.floor("C08.e", 8)
     res.floor("C08.a", 15)
     res.floor("C08.b", 2)
     res.floor("C08.c", 9)
